@@ -462,6 +462,58 @@ def check_stateless_yaml(ctx) -> None:
                     ctx.bad("C11.variants", m, n, "the serialiser object keeps an output buffer between calls")
 
 
+def check_id_reassign(ctx) -> None:
+    """The loaders hand every stored attribute back through setattr - the identifier too, which is None for a model
+    that was never named. Evaluated on a stand-in: assigning an object the identifier it already has is accepted
+    (None included) and changes nothing; a new string identifier is taken; anything else that is no string is
+    rejected."""
+    from ..interp import Interp
+
+    prog = ctx.prog
+    ci = prog.cls("Object")
+    setters = [m for m in ci.methods.get("id", []) if getattr(m, "prop_kind", None) == "setter"]
+    if not setters:
+        raise AnalysisError("C11.variants: Object.id has no setter")
+    fn = setters[0]
+
+    class _O:
+        def __init__(self, id_):
+            self._id = id_
+            self._model = None
+
+        @property
+        def id(self):
+            return self._id
+
+    problems = []
+    n = 0
+    for cur in (None, "e_coli", ""):
+        for new in (None, "e_coli", "other", "", 7):
+            o = _O(cur)
+            it = Interp(prog, (_O,), [], {})
+            try:
+                it.call(fn, [new], {}, selfobj=o)
+                got = ("value", o._id)
+            except EvalRaise as exc:
+                got = ("raise", exc.exc_type)
+            except Unknown as exc:
+                raise AnalysisError(f"C11.variants: the id setter cannot be evaluated: {exc}")
+            n += 1
+            if new == cur:
+                want = ("value", cur)
+            elif isinstance(new, str):
+                want = ("value", new)
+            else:
+                want = ("raise", None)
+            good = got == want or (want[0] == "raise" and got[0] == "raise")
+            if not good:
+                problems.append(f"object with id {cur!r}: assigning id = {new!r} {'raises ' + str(got[1]) if got[0] == 'raise' else 'leaves id ' + repr(got[1])}, expected {'the id ' + repr(want[1]) if want[0] == 'value' else 'a rejection'}" + (" (the loaders re-assign the stored id, None for a model without a name: loading such a model fails)" if new == cur else ""))
+    if problems:
+        ctx.bad("C11.variants", fn, fn.node, problems[0] + (f" (+{len(problems) - 1} more)" if len(problems) > 1 else ""))
+    else:
+        ctx.ok("C11.variants", fn, "id setter", f"{n} cases: re-assigning the stored identifier (None included) is accepted and changes nothing (evaluated)")
+
+
 def run(ctx) -> None:
     ctx.rule("C11.keys", "T7: writer/reader key tables agree and cover the attributes the property lists", floor=15)
     ctx.rule("C11.direction", "T7: objective direction is serialised", floor=1)
@@ -478,5 +530,6 @@ def run(ctx) -> None:
     check_defaults(ctx)
     check_fixtype(ctx)
     check_variants(ctx)
+    ctx.guard(check_id_reassign, ctx)
     c12.check_state(ctx)
     c02.check_owner(ctx)
